@@ -1043,3 +1043,93 @@ Lemma negative_zero_is_shown :
   plus_minus exact false (Qcfrac (-1) 1000) false
   = Ok {| pm_sign := SNeg; pm_amt := AText [48%N; 46%N; 48%N; 48%N] |}.
 Proof. vm_compute. reflexivity. Qed.
+
+(* ================================================================ G. the whole report *)
+Definition sec_gains_rel (A : arith) (x : sec_result) (og : option gains) : Prop :=
+  match snd (snd x) with
+  | None => exists g, security_gains A gains0 (gain_rows (fst (snd x))) = Ok g /\ og = Some g
+  | Some _ => og = None
+  end.
+
+Lemma all_sec_gains_spec A l : forall gs,
+  all_sec_gains A l = Ok gs -> Forall2 (sec_gains_rel A) l gs.
+Proof.
+  induction l as [|[s [ds o]] l IH]; intros gs H; cbn [all_sec_gains] in H.
+  - inversion H; constructor.
+  - destruct o as [st|].
+    + bind_as H as rest Er. inversion H; subst. constructor; [reflexivity | apply IH; reflexivity].
+    + bind_as H as g Eg. bind_as H as rest Er. inversion H; subst.
+      constructor; [exists g; split; [exact Eg | reflexivity] | apply IH; reflexivity].
+Qed.
+
+(* the table of one security of the report *)
+Definition sec_table_rel (A : arith) (full : bool) (cur : tx -> bytes * bytes)
+           (x : sec_result) (y : N * option stop * table) : Prop :=
+  fst (fst y) = fst x /\ snd (fst y) = snd (snd x) /\
+  match snd (snd x) with
+  | None => exists g, security_gains A gains0 (gain_rows (fst (snd x))) = Ok g /\
+                      render_table A full cur (fst (snd x)) g = Ok (snd y)
+  | Some _ => render_table A full cur (fst (snd x)) gains0 = Ok (snd y)
+  end.
+
+Lemma render_tables_spec A full cur l : forall gs tabs,
+  Forall2 (sec_gains_rel A) l gs ->
+  render_tables A full cur l gs = Ok tabs -> Forall2 (sec_table_rel A full cur) l tabs.
+Proof.
+  induction l as [|[s [ds o]] l IH]; intros gs tabs HF H.
+  - inversion HF; subst. cbn in H. inversion H; constructor.
+  - inversion HF as [|x og l' gs' Hx Hrest]; subst. cbn [render_tables] in H.
+    bind_as H as t Et. bind_as H as rest Er. inversion H; subst.
+    constructor; [|eapply IH; eauto].
+    unfold sec_table_rel, sec_gains_rel in *. cbn [fst snd] in *. split; [reflexivity|]. split; [reflexivity|].
+    destruct o as [st|].
+    + subst og. exact Et.
+    + destruct Hx as [g [Hg ->]]. exists g. auto.
+Qed.
+
+(* the report: one table per security, in the order of the securities; an
+   error-free security is rendered with the gains record of its own rows, a
+   rejected one with empty totals; the aggregate table renders the aggregate
+   of the error-free securities *)
+Theorem render_results_spec A full cur secs rep :
+  render_results A full cur secs = Ok rep ->
+  Forall2 (sec_table_rel A full cur) secs (rp_tables rep) /\
+  exists gs agg, Forall2 (sec_gains_rel A) secs gs /\
+                 aggregate A gains0 (some_gains gs) = Ok agg /\
+                 render_aggregate A full agg = Ok (rp_aggregate rep).
+Proof.
+  unfold render_results. destruct (first_panic secs); [discriminate|]. intros H.
+  bind_as H as gs Eg. bind_as H as agg Ea. bind_as H as tabs Et. bind_as H as at_ Eat.
+  inversion H; subst; clear H. cbn [rp_tables rp_aggregate].
+  pose proof (all_sec_gains_spec _ _ _ Eg) as HF.
+  split; [eapply render_tables_spec; eauto|]. exists gs, agg. auto.
+Qed.
+
+(* exact arithmetic: in every table of the report the total is the sum of the
+   capital gains of ITS rows and each year's figure the sum of the gains of
+   its rows settled in that year; a rejected security shows "Total $0" only *)
+Theorem report_totals_are_row_sums full cur secs rep :
+  render_results exact full cur secs = Ok rep ->
+  Forall2 (fun (x : sec_result) (y : N * option stop * table) =>
+             fst (fst y) = fst x /\
+             let rows := gain_rows (fst (snd x)) in
+             match snd (snd x) with
+             | None =>
+                 exists g, security_gains exact gains0 rows = Ok g /\
+                   tb_labels (snd y) = LTotal :: map LYear (years_sorted g) /\
+                   tb_values (snd y) = pm_value full (sum_all rows) false
+                                         :: map (fun yr => pm_value full (sum_year yr rows) false) (years_sorted g)
+             | Some _ =>
+                 tb_labels (snd y) = [LTotal] /\ tb_values (snd y) = [pm_value full 0 false]
+             end)
+          secs (rp_tables rep).
+Proof.
+  intros H. apply render_results_spec in H as [HF _].
+  induction HF as [|x y l tabs Hxy HF IH]; constructor; [|exact IH].
+  destruct Hxy as (H1 & H2 & H3). split; [exact H1|]. cbv zeta.
+  destruct (snd (snd x)) as [st|].
+  - destruct (footer_is_gains _ _ _ _ _ _ H3) as (Hl & _ & _ & total & yv & Hv & Hp & Hy).
+    change (years_sorted gains0) with (@nil Z) in *. cbn [map] in Hl.
+    inversion Hy; subst. rewrite plus_minus_exact in Hp. inversion Hp; subst. split; assumption.
+  - destruct H3 as [g [Hg Ht]]. exists g. split; [exact Hg|]. eapply footer_shows_row_sums; eauto.
+Qed.
